@@ -80,4 +80,72 @@ theorem cycles_replicate (W A : List Slot) (hWA : missing W A = []) (init : Stat
     simp only [cycles, List.replicate_succ]
     rw [reset_run W A hWA init hinit s0 _ (hsim s0), hfix, ih]
 
+
+/-! ### the same, ignoring slots a run initialises before it reads them (pure outputs, caches) -/
+
+theorem AgreeOff.mono {W W' : List Slot} (h : ∀ x ∈ W, x ∈ W') {s s' : State V} (a : AgreeOff W s s') :
+    AgreeOff W' s s' := fun l hl => a l (fun hw => hl (h _ hw))
+
+theorem AgreeOff.trans {W : List Slot} {s s' s'' : State V} (a : AgreeOff W s s') (b : AgreeOff W s' s'') :
+    AgreeOff W s s'' := fun l hl => (a l hl).trans (b l hl)
+
+theorem AgreeOff.refl (W : List Slot) (s : State V) : AgreeOff W s s := fun _ _ => rfl
+
+/-- every written slot is either re-assigned by reset or ignored: run-then-reset equals reset, off the ignored slots -/
+theorem reset_run_off (W A Ign : List Slot) (hWA : missing W (A ++ Ign) = []) (init : State V → Loc → V)
+    (hinit : InitFromDefinition W init) (s : State V) (t : Trace V) (ht : t.within W) :
+    AgreeOff Ign (reset A init (run s t)) (reset A init s) := by
+  intro l hI
+  unfold reset
+  have hoff : AgreeOff W (run s t) s := fun l hl => run_off W s t ht l hl
+  by_cases hA : l.slot ∈ A
+  · simp only [hA, if_true]; exact hinit _ _ hoff l
+  · simp only [hA, if_false]
+    refine hoff l (fun hw => ?_)
+    have := (missing_eq_nil W (A ++ Ign)).mp hWA _ hw
+    rcases List.mem_append.mp this with h | h
+    · exact hA h
+    · exact hI h
+
+theorem reset_agreeOff (W A Ign : List Slot) (hIW : ∀ x ∈ Ign, x ∈ W) (init : State V → Loc → V)
+    (hinit : InitFromDefinition W init) (s s' : State V) (a : AgreeOff Ign s s') :
+    AgreeOff Ign (reset A init s) (reset A init s') := by
+  intro l hI
+  unfold reset
+  by_cases hA : l.slot ∈ A
+  · simp only [hA, if_true]; exact hinit _ _ (a.mono hIW) l
+  · simp only [hA, if_false]; exact a l hI
+
+/-- **any number of run / reset cycles reproduces the first run's results**, for a simulator that does not depend on the
+ignored slots -/
+theorem cycles_replicate_off (W A Ign : List Slot) (hWA : missing W (A ++ Ign) = []) (hIW : ∀ x ∈ Ign, x ∈ W)
+    (init : State V → Loc → V) (hinit : InitFromDefinition W init) (sim : Sim V Res)
+    (hsim : ∀ s, (sim.trace s).within W)
+    (hdep : ∀ s s', AgreeOff Ign s s' → sim.results s = sim.results s' ∧ sim.trace s = sim.trace s')
+    (s0 : State V) (hfix : AgreeOff Ign (reset A init s0) s0) (n : Nat) :
+    ∀ s, AgreeOff Ign s s0 → cycles A init sim n s = List.replicate n (sim.results s0) := by
+  induction n with
+  | zero => intro s _; rfl
+  | succ k ih =>
+    intro s hs
+    simp only [cycles, List.replicate_succ]
+    rw [(hdep s s0 hs).1]
+    congr 1
+    apply ih
+    exact (reset_run_off W A Ign hWA init hinit s _ (hsim s)).trans
+      ((reset_agreeOff W A Ign hIW init hinit s s0 hs).trans hfix)
+
+theorem overlap_filter_not_mem (W R : List Slot) : overlap (W.filter fun w => !decide (w ∈ R)) R = [] := by
+  rw [overlap_eq_nil]
+  intro w hw
+  simpa using (List.mem_filter.mp hw).2
+
+theorem missing_filter_mem (W A : List Slot) : missing (W.filter fun w => decide (w ∈ A)) A = [] := by
+  rw [missing_eq_nil]
+  intro w hw
+  simpa using (List.mem_filter.mp hw).2
+
+theorem within_mono {W W' : List Slot} (h : ∀ x ∈ W, x ∈ W') {t : Trace V} (ht : t.within W) : t.within W' :=
+  fun p hp => h _ (ht p hp)
+
 end Wntr.Frame
